@@ -33,6 +33,9 @@ OPTS = {
     "layout": ["full", "compact"],
     "sym": [True, False],
     "pot": ["nn", "long", "central-nn", "short"],
+    # where the displacements fed to the force model come from: the dataset, or the displaced supercells handed out
+    # after an earlier generate_displacements() call with other options (the calculator workflow, repeated)
+    "wf": ["dataset", "supercells-after-regen"],
 }
 DEFAULT = {k: v[0] for k, v in OPTS.items()}
 
@@ -133,6 +136,11 @@ def run_case(case, seed, c, phs, fcs):
     scale = max(np.abs(ref).max(), 1e-3)
     trans = 0
     try:
+        if case.get("wf") == "supercells-after-regen":
+            phx.quiet(ph.generate_displacements, distance=2.5 * case["dist"], is_plusminus=(case["plusminus"] is not True),
+                      is_diagonal=not case["diag"])
+            _ = ph.supercells_with_displacements
+            trans += 1
         phx.quiet(ph.generate_displacements, distance=case["dist"], is_plusminus=case["plusminus"],
                   is_diagonal=case["diag"], is_trigonal=case["trig"])
         trans += 1
@@ -142,7 +150,14 @@ def run_case(case, seed, c, phs, fcs):
             if abs(np.linalg.norm(d["displacement"]) - case["dist"]) > 1e-9 * case["dist"] + 1e-14:
                 return dict(ok=False, sig="C01/displacement-length", msg="displacement %s has length != distance %g" % (d["displacement"], case["dist"]),
                             transitions=trans)
-        ph.forces = SP.forces_for_dataset(ref, ds)
+        if case.get("wf") == "supercells-after-regen":
+            scs = ph.supercells_with_displacements
+            if len(scs) != ndisp:
+                return dict(ok=False, sig="C01/displaced-supercells-stale", msg="%d displaced supercells for %d displacements" % (len(scs), ndisp), transitions=trans)
+            base = ph.supercell.positions
+            ph.forces = np.array([-np.einsum("ijab,jb->ia", ref, sc_.positions - base) for sc_ in scs])
+        else:
+            ph.forces = SP.forces_for_dataset(ref, ds)
         trans += 1
         phx.quiet(ph.produce_force_constants, calculate_full_force_constants=(case["layout"] == "full"),
                   fc_calculator=None, show_drift=False)
